@@ -161,6 +161,7 @@ func (f *faulty) Destroy(ctx context.Context, typ resource.Type, p resource.Poin
 }
 
 type incarnation struct {
+	db     *bbolt.DB
 	bs     *bolt.BackingStore
 	st     state.State
 	core   state.CoreState
@@ -178,8 +179,13 @@ func (in *incarnation) settle() {
 }
 
 func open(path string, m store.Marshaler, ctr *counters, faults []Fault, sync bool) (*incarnation, error) {
+	var db *bbolt.DB
+
 	bs, err := bolt.NewBackingStore(func() (*bbolt.DB, error) {
-		return bbolt.Open(path, 0o600, &bbolt.Options{NoSync: !sync, NoFreelistSync: !sync, Timeout: 5 * time.Second})
+		d, err := bbolt.Open(path, 0o600, &bbolt.Options{NoSync: !sync, NoFreelistSync: !sync, Timeout: 5 * time.Second})
+		db = d
+
+		return d, err
 	}, m)
 	if err != nil {
 		return nil, err
@@ -194,7 +200,7 @@ func open(path string, m store.Marshaler, ctr *counters, faults []Fault, sync bo
 		return inmem.NewStateWithOptions(inmem.WithBackingStore(b))(ns)
 	})
 
-	return &incarnation{bs: bs, st: state.WrapCore(core), core: core}, nil
+	return &incarnation{bs: bs, st: state.WrapCore(core), core: core, db: db}, nil
 }
 
 func (in *incarnation) close() {
